@@ -136,8 +136,11 @@ CLAIMED = {
         "the digit limit; argument names used once. The converse clause (C10Cover.lean): lex_covers / accepted_all_recognised "
         "— whenever the lexer accepts a text, its tokens written out again are a subsequence of the text containing every "
         "non-blank character in order (only TAB/LF/CR between tokens and spaces inside argument lists lie outside "
-        "tokens), for every input string. The theorems are about the model of the front end; that the model is "
-        "the real ANTLR front end is the correspondence: 30 000 "
+        "tokens), for every input string. The theorems are about the model of the front end; the model is tied to the code in "
+        "two ways: (1) C10Grammar.lean pins, as theorems re-checked every run over tables the extractor copies from /repo, the "
+        "statements of TagTemplateLexer.g4 / TagTemplateParser.g4 (layout and comments removed) and the serialised automata and "
+        "rule/mode names of the generated TagTemplateLexer.py / TagTemplateParser.py that actually run - any edit of a rule or "
+        "regeneration of a recogniser breaks an obligation and starts the failing-input search; (2) the correspondence: 30 000 "
         "generated trees per run are printed by the model's printer and by an independent Python printer, parsed by "
         "the real parser and by the model, and compared with the tree; accepted strings are re-lexed with a collecting "
         "listener (nothing dropped); CLI runs check that text+argument reach the generated name verbatim.",
@@ -154,8 +157,9 @@ CLAIMED = {
         "tree whose tag has exactly x as context. For arbitrary X and argument lists (C11Tree.lean): pipe_tokens (the parser "
         "turns the tokens of X|A|B.. into nest X [A, B..]; parsePipes by induction over the tag list), lex_piped (the "
         "lexer cuts the piped spelling into those tokens) and pipe_eq_nested_tree (both spellings, printed in any two "
-        "styles, parse to the same tree nest X tags), built on C10's tree round trip. The tie of the model front end to "
-        "the real one is by correspondence: 20 000 generated (X, 1-5 tags, arguments) pairs per run are printed in both "
+        "styles, parse to the same tree nest X tags), built on C10's tree round trip. The grammar statements and generated "
+        "automata the front-end model was written against are pinned by theorems over tables re-extracted from /repo each run "
+        "(C11Grammar.lean); beyond that the tie of the model front end to the real one is by correspondence: 20 000 generated (X, 1-5 tags, arguments) pairs per run are printed in both "
         "spellings, at top level and inside a context, parsed by the real parser and by the model (equal trees), and "
         "rendered through the real compiler with the built-in text tags (equal names).",
         "Trusted: Lean kernel; ANTLR runtime/generated parser (modelled, tied by correspondence).",
@@ -237,8 +241,13 @@ CLAIMED = {
         "real renamer model consists exactly of the initial entries, each with its identity, kind and content, the "
         "selected ones at their generated paths and every other one where it was - nothing added, lost or moved "
         "besides (induction over the real run with the exact effect of renaming a leaf, renameAbs_leaf / "
-        "name_call_effect). Partial: plans that are not free in this sense (chains visited from the near end, which need the "
-        "retry pass; cycles), path and directory "
+        "name_call_effect). Chains visited from the NEAR end (C02Chain.lean, near_chain_succeeds_name_mode): a plan in which every "
+        "occupied destination is the current path of a LATER file that is renamed itself (0,1,2 -> 1,2,3 in ascending order; any "
+        "number of chains of any length) ends done in the real renamer model for every file list, strategy and scripted answers, "
+        "and under stop reports exactly the planned renames: the first pass defers exactly the files whose destination exists, "
+        "the second pass pops them in reverse and finds each destination vacated (semantic invariant Moved on the dry-run state, "
+        "one step lemma move_step for both passes, transfer through the C05 simulation). Partial: plans mixing both directions, "
+        "cycles, path and directory "
         "mode and trees with symbolic links are NOT covered by these theorems; they are decided by the oracle on every "
         "function from <=3 (quick) / <=4 (thorough) files into a name universe in every order "
         "(exhaustive, labelled as a test) and on random multi-root runs in all modes, with the final tree compared "
@@ -273,7 +282,8 @@ CLAIMED = {
         "set ends in an error; TemplateSyntaxError/TemplateSemanticError exit 3, TemplateEvaluationError exits 4 over "
         "the except order extracted from cli.py; in the phase model of main() every compile error and every filter/sort "
         "evaluation failure returns before the renamer is called at all (calls = [], renamer state unchanged) and the "
-        "working directory is restored. Partial: that the real ANTLR parser/binder reject exactly the same templates is "
+        "working directory is restored. The grammar statements and the generated automata the model was written against are pinned by theorems over tables "
+        "re-extracted from /repo each run (C09Grammar.lean). Partial: that the real ANTLR parser/binder reject exactly the same templates is "
         "the correspondence (all strings over a 9-symbol alphabet up to length 5, mutated valid templates, random "
         "strings; name/filter/sort/alias positions through the CLI, including expressions that fail only for later "
         "files), where the oracle demands status 3/4 (never a traceback), a message with a position inside the text, "
